@@ -20,6 +20,11 @@ def Op.isDcur : Op → Bool
   | .dcur _ => true
   | _ => false
 
+/-- generation counters after an operation: only generate/rotate counts -/
+def countStep (count : Slot → Nat) : Op → Slot → Nat
+  | .gen s => upd count s (count s + 1)
+  | _ => count
+
 /-- operations Acra's API offers (both formats) -/
 def Op.inApi : Op → Bool
   | .all s => s.kind.hasAll
